@@ -314,7 +314,7 @@ func (h *harness) feed(chunk []byte, want int) string {
 			case <-time.After(2 * time.Millisecond):
 			case <-dl:
 				longWaits++
-				return ""
+				return "wait-timeout"
 			case <-h.cc.done:
 				return "connection-closed"
 			}
@@ -456,6 +456,10 @@ func (r *run) play(cls string, cuts []int, auto bool) (aborted bool) {
 			}
 			got = append(got, r.identify(cls, g.digest))
 		}
+		timedOut := e == "wait-timeout" // the missing message is judged by the trace spec; the run ends here
+		if timedOut {
+			e = ""
+		}
 		buffered := -1
 		if e == "" {
 			buffered = h.buffered()
@@ -467,6 +471,9 @@ func (r *run) play(cls string, cuts []int, auto bool) (aborted bool) {
 		}
 		if e != "" {
 			tr.Emit(vh.Ev{"ev": "err", "what": e})
+			return true
+		}
+		if timedOut {
 			return true
 		}
 		if h.f.ssc != nil && string(h.f.proto) != r.sp.Proto {
